@@ -60,7 +60,8 @@ class C04(Check):
     level_note_extra = 'tempfile.TemporaryFile is trusted to behave as a byte buffer; buffer size 0 is a stated degenerate branch'
     rule = ('body lengths 0..300 x Content-Length below/equal/above/zero/negative x buffer {1,2,3,4,7,8,64,1000} x '
             'schedules (full, all-ones, random short, early EOF) through _body_read and through Request.body in a '
-            'WSGI call with CONTENT_LENGTH spellings; non-trivial = non-empty data and positive Content-Length')
+            'WSGI call with CONTENT_LENGTH spellings; overlap axis (another request decoded inside the read callback / '
+            'generators advanced alternately: results equal the solo results); non-trivial = non-empty data and positive Content-Length')
     assumptions = ['wsgi.input.read(n) returns at most n bytes and returns b"" only at end of data (the stream model)',
                    'tempfile.TemporaryFile behaves as a byte buffer',
                    'CONTENT_LENGTH with non-ASCII decimal digits is outside the model',
@@ -70,7 +71,7 @@ class C04(Check):
         self.stats = {}
 
     def budget(self, tier, escalated):
-        n = 4000 if tier == "quick" else 240000
+        n = 3000 if tier == "quick" else 240000
         return n * (4 if escalated and tier == 'quick' else 1)
 
     def nontrivial(self, sample):
@@ -84,10 +85,18 @@ class C04(Check):
             if rng.random() < .05:
                 buf = 0
             maxb = None
-            res = bl.run_read(data, sched, buf, cl, False, maxb)
+            hook, ov = None, None
+            if buf > 0 and rng.random() < .15:      # overlap axis: another request decoded inside read()
+                b = bl.gen_overlap_b(rng, rng.random() < .5)
+                mode = rng.choice(['unit', 'unit', 'thread-unit'])
+                spec = bl.gen_spec(rng, 12)
+                hook = (bl.when_of(spec), bl.b_runner(mode, b, []))
+                ov = dict(mode=mode, spec=spec, b=bl.pack_req(b))
+                bl.bump(st, 'overlap:' + mode)
+            res = bl.run_read(data, sched, buf, cl, False, maxb, hook=hook)
             out.append((bl.line_read(data, sched, buf, cl, False, maxb), bl.ans_read(res),
                         dict(kind='read', len=len(data), cl=cl, buf=buf, max=maxb, sched=sched[:8],
-                             data=data.hex(), full_sched=sched)))
+                             data=data.hex(), full_sched=sched, overlap=ov)))
             bl.bump(st, 'unit:' + ('ok' if res['ok'] else res['err']))
             bl.bump(st, 'unit:len' + bl.size_bucket(len(data)))
             bl.bump(st, 'unit:cl-' + ('neg' if cl < 0 else 'short' if cl < len(data) else 'eq' if cl == len(data) else 'long'))
@@ -103,11 +112,31 @@ class C04(Check):
                               ['P0', 'P2', 'B', 'P1', 'I'], ['S', 'B'], [], ['?B', 'B'], ['?S', 'B', 'I'],
                               ['?B', '?B', 'I'], ['P1', '?S', 'P2', 'B'], ['?C', '?B', '?S']])
             maxb = None
+            if rng.random() < .25:      # the application replaces wsgi.input through the request's item assignment
+                nd = bl.gen_payload(rng, max(0, rng.choice([0, cl - 1, cl, cl + 3, rng.randint(0, 40)])))
+                r1 = bl.rop(nd, bl.gen_sched(rng, max(1, len(nd)))[:30])
+                r2 = bl.rop(bl.gen_payload(rng, rng.randint(0, 12)), [1] * rng.randint(0, 3))
+                lo = bl.lop(cl_spelling(rng, max(0, cl + rng.choice([-2, -1, 0, 1, 3]))) or '')
+                ops = rng.choice([['B', r1, 'B'], ['?S', r1, 'B', 'I'], ['?B', r1, 'B'], ['B', 'K', r1, 'B', 'O', 'B'],
+                                  ['P2', r1, 'P3', 'B'], [r1, 'B'], ['B', r1, r2, 'B', 'I'], ['K', r1, '?B', 'O', 'B'],
+                                  ['?B', 'K', r1, 'B', 'O', '?B'], ['B', r1, 'P1', r2, '?S'],
+                                  ['B', lo, r1, 'B'], [r1, lo, 'C', 'B'], ['C', lo, 'C', '?B'], ['B', r1, lo, 'B', 'I']])
+                if rng.random() < .3:
+                    maxb = rng.randint(0, len(data) + 2)       # so that the first access can be a 413
+                bl.bump(st, 'wsgi:replace-input')
             mk = '@' if rng.random() < .8 else rng.choice(list(bl.MAPS))
-            res = bl.run_wsgi(mk, buf, maxb, hdr, te, data, sched, ops)
+            hook, ov = None, None
+            if rng.random() < .15:
+                b = bl.gen_overlap_b(rng, rng.random() < .5)
+                mode = rng.choice(['wsgi', 'thread-wsgi'])
+                spec = bl.gen_spec(rng, 12)
+                hook = (bl.when_of(spec), bl.b_runner(mode, b, []))
+                ov = dict(mode=mode, spec=spec, b=bl.pack_req(b))
+                bl.bump(st, 'overlap:' + mode)
+            res = bl.run_wsgi(mk, buf, maxb, hdr, te, data, sched, ops, hook=hook)
             out.append((bl.line_wsgi(mk, buf, maxb, hdr, te, data, sched, ops), bl.ans_wsgi(res),
                         dict(kind='wsgi', len=len(data), cl=cl, cl_header=hdr, te=te, buf=buf, max=maxb, map=mk,
-                             ops=ops, sched=sched[:8], data=data.hex(), full_sched=sched)))
+                             ops=ops, sched=sched[:8], data=data.hex(), full_sched=sched, overlap=ov)))
             bl.bump(st, f'wsgi:status{res["status"]}')
         return out
 
@@ -150,6 +179,9 @@ class C04(Check):
                 if pos + n > lim:
                     return ('wsgi:read-beyond-content-length',
                             f'read({n}) issued at offset {pos} with Content-Length {cl} (repeated access after a 413)')
+        bad = self._replace_oracle(data, cl, buf, sched, want, lim)
+        if bad:
+            return bad
         # other accessors first (they may refuse the body as form text), then the body: same bytes
         for ctype, ops in (('application/json', ['?J', 'B']), ('application/x-www-form-urlencoded', ['?F', 'B']),
                            (None, ['?S', 'P1', 'B'])):
@@ -159,6 +191,50 @@ class C04(Check):
             for pos, n in w2['calls']:
                 if pos + n > lim:
                     return 'wsgi:read-beyond-content-length', f'read({n}) issued at offset {pos} with Content-Length {cl}'
+        return None
+
+    def _replace_oracle(self, data, cl, buf, sched, want, lim):
+        """the application replaces wsgi.input (item assignment on the request, also on a copy): the next read
+        presents the first Content-Length bytes of the NEW stream, read within its Content-Length"""
+        if cl < 0:
+            return None
+        clh = str(cl)
+        new = bytes(reversed(data)) + b'NEW'
+        nsched = [1, 2] * 8
+        rp = bl.rop(new, nsched)
+
+        def within(w, k, limit):
+            return all(pos + n <= limit for pos, n in w['streams'][k].calls) if len(w['streams']) > k else False
+        for ctype, ops, firsts in ((None, ['B', rp, 'B', 'I'], [want]), ('application/json', ['?J', rp, 'B'], []),
+                                   (None, [rp, 'B'], []), (None, ['P1', rp, 'P2', 'B'], [])):
+            w = bl.run_wsgi('@', buf, None, clh, None, data, sched, ops, ctype=ctype)
+            if w['status'] != 200 or w['info'].get('bodies') != firsts + [new[:lim]]:
+                got = w['info'].get('bodies', [None])[-1]
+                key = 'replace:old-body-presented' if got == want and want != new[:lim] else 'replace:body-differs'
+                return key, (f'after request["wsgi.input"] = new stream ({"".join(o[0] for o in ops)}): status {w["status"]}, '
+                             f'body {got!r:.40}, expected the first {lim} bytes of the new stream')
+            if not within(w, 1, lim):
+                return 'replace:read-beyond-content-length', 'the new stream was read beyond Content-Length'
+        # on a copy of the request; the original keeps its buffered body
+        w = bl.run_wsgi('@', buf, None, clh, None, data, sched, ['B', 'K', rp, 'B', 'O', 'B'])
+        if w['status'] != 200 or w['info'].get('bodies') != [want, new[:lim], want]:
+            return 'replace:copy', f'request.copy() with a replaced stream: bodies {w["info"].get("bodies")!r:.80}'
+        # a rejected first read (size limit), then a new stream that fits
+        if lim >= 2 and len(want) == lim:
+            small = bytes(reversed(data[:lim - 1]))
+            w = bl.run_wsgi('@', buf, lim - 1, clh, None, data, sched, ['?B', bl.rop(small, [1]), 'B'])
+            if w['status'] != 200 or w['outs'][:1] != ['e:HTTP413'] or w['info'].get('bodies') != [small]:
+                return 'replace:after-rejected-read', (f'413, then a new stream of {len(small)} bytes: status {w["status"]}, '
+                                                       f'outs {w["outs"]}')
+        # Content-Length reassigned together with the stream (either order)
+        for cl2 in {cl + 2, max(0, cl - 2)} - {cl}:
+            for ops in (['B', bl.lop(str(cl2)), rp, 'B'], [rp, bl.lop(str(cl2)), 'B']):
+                w = bl.run_wsgi('@', buf, None, clh, None, data, sched, ops)
+                if w['status'] != 200 or w['info'].get('bodies', [None])[-1] != new[:cl2] or not within(w, 1, cl2):
+                    got = w['info'].get('bodies', [None])[-1]
+                    return 'setitem:stale-content-length', (
+                        f'request["CONTENT_LENGTH"] = "{cl2}" (was {cl}) and a new stream: body of {len(got) if got is not None else None} '
+                        f'bytes presented, the new Content-Length says {min(cl2, len(new))}')
         return None
 
     def search(self, rng, n, seeds):
@@ -186,6 +262,39 @@ class C04(Check):
             if bad:
                 findings.append(Finding(f'C04:{bad[0]}', bad[1],
                                         dict(data=c[0].hex(), cl=c[1], buf=c[2], sched=c[3])))
+        # overlap axis: another request's body (either framing) decoded completely at every read call of A
+        ocases = []
+        for s in seeds:
+            if s.get('overlap') and s.get('buf', 0) > 0:
+                o = s['overlap']
+                ocases.append(dict(a=dict(raw=s['data'], sched=s['full_sched'], buf=s['buf'], cl=s['cl'], chunked=False),
+                                   b=o['b'], mode=o['mode'], spec=o['spec']))
+        modes = ['unit', 'wsgi', 'thread-unit', 'thread-wsgi']
+        k = 0
+        for cl, buf, sched in ((10, 3, []), (10, 4, [1] * 12), (7, 8, [2, 1])):
+            a = dict(raw=bytes(range(65, 77)), sched=sched, buf=buf, cl=cl, chunked=False)
+            for j in range(bl.solo_calls(a) + 1):
+                ocases.append(dict(a=bl.pack_req(a), b=bl.pack_req(bl.gen_overlap_b(rng, j % 2 == 0)), mode=modes[k % 4],
+                                   spec=['at', j]))
+                k += 1
+            for order in ('ab', 'aab', 'abb', 'ba'):
+                ocases.append(dict(a=bl.pack_req(a), b=bl.pack_req(bl.gen_overlap_b(rng, False)), mode='alternate', spec=order))
+        for _ in range(max(6, n // 40)):
+            data, cl, buf, sched = gen_case(rng)
+            a = dict(raw=data, sched=sched, buf=buf, cl=cl, chunked=False)
+            ocases.append(dict(a=bl.pack_req(a), b=bl.pack_req(bl.gen_overlap_b(rng, rng.random() < .5)),
+                               mode=rng.choice(modes + ['alternate']), spec=bl.gen_spec(rng, 12)))
+            if ocases[-1]['mode'] == 'alternate':
+                ocases[-1]['spec'] = rng.choice(['ab', 'aab', 'abb', 'abab', 'ba'])
+        for c in ocases:
+            evals += 1
+            try:
+                bad = bl.overlap_check(bl.unpack_req(c['a']), bl.unpack_req(c['b']), c['mode'], c['spec'])
+            except Exception as e:
+                bad = f'oracle-exception {type(e).__name__}: {e}'
+            bl.bump(self.stats, 'search:overlap:' + c['mode'])
+            if bad:
+                findings.append(Finding('C04:overlap:result-differs-from-solo', bad, dict(probe='overlap', **c)))
         return evals, findings
 
     def replay(self, data):
@@ -194,5 +303,7 @@ class C04(Check):
         if data.get('kind') == 'correspondence':
             return bl.replay_correspondence(data)
         i = data['input']
+        if i.get('probe') == 'overlap':
+            return dict(input=i, oracle=bl.overlap_check(bl.unpack_req(i['a']), bl.unpack_req(i['b']), i['mode'], i['spec']))
         sched = i.get('sched', i.get('full_sched', []))
         return dict(input=i, oracle=self._oracle(bytes.fromhex(i['data']), i['cl'], i['buf'], sched))
